@@ -93,10 +93,13 @@ def design_jobs(ctx):
                     ("reinsert_new_index", "HookInOrderNoDup"), ("no_signal_recheck", "temporal"),
                     ("signal_before_commit", "temporal")):
         jobs.append(("hookv_" + v, dict(HOOK1, Variant='"%s"' % v), HOOK_INV, what))
-    # D14: a SETHOOK redefinition while the old sender is at work (old and new manager overlap)
-    jobs.append(("hookv_replace", dict(HOOK1, MaxReplace=1), HOOK_INV, "HookInOrderNoDup"))
+    # a SETHOOK redefinition while the old sender is at work: the new manager is opened when the old one has ended;
+    # D14 (the code before the repair): both work at once - order broken, re-inserted messages stranded
+    jobs.append(("hook_redefined", dict(HOOK1, HookKinds="<<<<4>>>>", MaxReplace=1, MaxFlips=2), HOOK_INV, None))
+    jobs.append(("hookv_redefinition_overlaps", dict(HOOK1, MaxReplace=1, Variant='"redefinition_overlaps"'), HOOK_INV, "HookInOrderNoDup"))
     if not ctx.quick:
-        jobs.append(("hookv_replace_stuck", dict(HOOK1, MaxReplace=1, MaxFlips=2), "PROPERTY HookEventuallyAll\n", "temporal"))
+        jobs.append(("hookv_redefinition_strands", dict(HOOK1, MaxReplace=1, MaxFlips=2, Variant='"redefinition_overlaps"'),
+                     "PROPERTY HookEventuallyAll\n", "temporal"))
     # ---- pub/sub
     S1, P1 = seq(SUB("ch", 1)), seq(SUB("pat", 1))
     SU = seq(SUB("ch", 1), UNSUB("ch", 1))
@@ -135,9 +138,9 @@ def design_jobs(ctx):
     return jobs
 
 
-VARIANT_ONLY = {"CSignalEarly", "CQueueLate", "SAckFirst", "SRegLate", "Replace", "HClosedWake"}
+VARIANT_ONLY = {"CSignalEarly", "CQueueLate", "SAckFirst", "SRegLate"}
 ACTIONS = {"PStart", "PApp", "WStart", "GStart", "CQueue", "CSignal", "CLive", "HTop", "HTake", "HTry", "HSent", "HReinsert",
-           "HSleep", "HCheck", "Flip", "Poke", "Tick", "Expire", "SReg", "SRecv", "STake", "SWrite", "LReg", "LRecv", "LDist",
+           "HSleep", "HCheck", "HOpen", "Replace", "Flip", "Poke", "Tick", "Expire", "SReg", "SRecv", "STake", "SWrite", "LReg", "LRecv", "LDist",
            "LEval"} | VARIANT_ONLY
 
 
@@ -211,6 +214,8 @@ def sim_configs(ctx):
         ("keys", dict(HookKey="<<1, 2>>", HookKinds="<<<<3, 4>>, <<4>>>>", HookEps="<<<<1>>, <<2>>>>", NEps=2, NKeys=2,
                       FailModes='{"hang", "5xx", "refuse"}', MaxFlips=4, Prog=seq(seq(*[SET(0)] * 5)))),
     ]
+    cfgs.append(("redef", dict(HookKey="<<1>>", HookKinds="<<<<4>>>>", HookEps="<<<<1>>>>", NEps=1, FailModes='{"refuse", "5xx"}', MaxFlips=3,
+                               MaxReplace=1, Prog=w4)))
     if not ctx.quick:
         cfgs.append(("ttl", dict(HookKey="<<1>>", HookKinds="<<<<4>>>>", HookEps="<<<<1>>>>", NEps=1, FailModes='{"refuse"}', MaxFlips=3,
                                  TTL=3, MaxClock=4, Prog=seq(seq(*[SET(1)] * 4)))))
@@ -220,9 +225,10 @@ def sim_configs(ctx):
     return cfgs
 
 
-def simulate(ctx, name, consts, num):
+def simulate(ctx, name, consts, num, check_invariants=True):
     module, cc = mc("sim_" + name, "NotifySim", dict(consts, Record="TRUE"), extra_consts=("EnvOneIn = 3", "EndOneIn = 6"))
-    cfg = "SPECIFICATION SimSpec\n" + cc + "INVARIANT HookInOrderNoDup HookNothingLost HookGenInWriteOrder\n"
+    cfg = "SPECIFICATION SimSpec\n" + cc + ("INVARIANT HookInOrderNoDup HookNothingLost HookGenInWriteOrder\n" if check_invariants
+                                            else "INVARIANT HookNothingLost HookGenInWriteOrder\n")
     r = ctx.tlc("sim_" + name, MODS + ["NotifySim.tla"], module, cfg, workers=1, simulate=num, depth=500, timeout=900)
     if not r["ok"]:
         raise common.Infra("NotifySim %s violates %s: %s" % (name, r["violated"], r["out"]))
@@ -269,6 +275,8 @@ def features(b):
                 f.add("write_while_sender_busy")
         elif a in ("poke", "tick", "replace"):
             f.add(a)
+            if a == "replace" and left.get(e["h"], 0) > 0:
+                f.add("redefined_while_a_request_is_in_flight")
     if any(len(b["gen"][i]) != len(b["deliv"][i]) for i in range(len(b["gen"]))):
         f.add("undelivered_when_script_ends")
     if any(b["dropped"][i] for i in range(len(b["dropped"]))):
@@ -278,7 +286,8 @@ def features(b):
 
 
 REQUIRED = ["res:up", "res:refuse", "res:5xx", "fail_first_of_batch", "fail_mid_batch", "failover_delivery", "write_while_sender_busy",
-            "new_messages_join_reinserted", "poke", "undelivered_when_script_ends", "two_senders_interleaved", "batch>=3"]
+            "new_messages_join_reinserted", "poke", "undelivered_when_script_ends", "two_senders_interleaved", "batch>=3",
+            "redefined_while_a_request_is_in_flight"]
 
 
 def select(ctx, files, want, max_cost, max_hang_behaviours, required):
@@ -335,12 +344,13 @@ def replay(ctx, lines, label, report=True, extra=(), par=PAR):
                               timeout=3000)
     st = js["stats"]
     if report:
-        seen = set()
+        seen, per_class = set(), {}
         for m in js["mismatches"] or []:
             key = (m["behaviour"], m["class"])
-            if key in seen:
+            if key in seen or per_class.get(m["class"], 0) >= 3:
                 continue
             seen.add(key)
+            per_class[m["class"]] = per_class.get(m["class"], 0) + 1
             text = "webhook delivery disagrees with the specification [%s] in behaviour %d (%s): %s" % (
                 m["class"], m["behaviour"], label, m["text"])
             common.report(ctx, "c10-%s-%s-b%d-h%d" % (label, m["class"], m["behaviour"], m["hook"]), text,
@@ -378,7 +388,7 @@ def judge(ctx, name, trace_path):
 
 def record(ctx, label, runs, seed, extra=()):
     out = os.path.join(ctx.scratch, "conc_%s.ndjson" % label)
-    args = ["notify-conc", "-out", out, "-runs", str(runs), "-par", ctx.pick("4", "6"), "-seed", str(seed),
+    args = ["notify-conc", "-out", out, "-runs", str(runs), "-par", ctx.pick("4", "6"), "-seed", str(seed), "-patience", "60s",
             "-dir", os.path.join(ctx.scratch, "csrv_" + label)] + list(extra)
     rc, js, err = ctx.harness(args, timeout=3000)
     return out, js, args
@@ -546,7 +556,7 @@ def run(ctx):
         fdesign = ex.submit(design, ctx)
         cfgs = sim_configs(ctx)
         nsim = ctx.pick(150, 1500)
-        with cf.ThreadPoolExecutor(max_workers=3) as ex2:
+        with cf.ThreadPoolExecutor(max_workers=4) as ex2:
             sims = list(ex2.map(lambda c: (c[0],) + simulate(ctx, c[0], c[1], nsim), cfgs))
         res, intended, refuted, taken = fdesign.result()
     files = [(n, beh) for n, r, beh, k in sims]
@@ -572,9 +582,18 @@ def run(ctx):
         raise common.Infra("the replay never exercised a mid-batch failure / a failover / a refused attempt / a write during a send: %s" % st)
 
     # ---- concurrent runs judged by NotifyTrace
+    try:
+        rest(ctx, st, chosen, covered, res, intended, refuted, taken, sims, ngen)
+    except common.Infra as e:
+        if not ctx.violations:
+            raise
+        ctx.log("a later stage could not be completed after violations had been found: %s" % e)
+
+
+def rest(ctx, st, chosen, covered, res, intended, refuted, taken, sims, ngen):
     summ, recs, nm2, tlines, tr = concurrent_legs(ctx, [
-        ("faults", ctx.pick(8, 120), ctx.seed, ["-ops", ctx.pick("24", "30")]),
-        ("nofaults", ctx.pick(8, 120), ctx.seed + 1000, ["-faults=false", "-pace", "1ms", "-writers", "5", "-ops", ctx.pick("24", "40")])])
+        ("faults", ctx.pick(8, 90), ctx.seed, ["-ops", ctx.pick("24", "30")]),
+        ("nofaults", ctx.pick(8, 90), ctx.seed + 1000, ["-faults=false", "-pace", "1ms", "-writers", "5", "-ops", ctx.pick("24", "40")])])
     cj, cj2 = recs[0][2], recs[1][2]
     ctx.log("concurrent runs: %d + %d recorded (%d too slow), %d streams with %d items judged by NotifyTrace, %d rejected; "
             "%d requests answered 503, %d + %d failure windows"
@@ -627,6 +646,7 @@ def run(ctx):
         "stream_items_judged": summ["items"],
         "streams_rejected": summ["rejected"],
         "concurrent_info": {"with_faults": cj["info"], "without_faults": cj2["info"]},
+        "redefinitions_replayed": st["replaces"],
         "selftest_corruptions_noticed": nm1 + nm2,
         "selftest_samples": mut_samples,
         "exhaustive": False,
@@ -643,7 +663,7 @@ def run(ctx):
         "the refusal of an attempt against a closed listener is known from the server's own debug log (synchronisation only, "
         "no verdict depends on it)",
         "time based judgements (message not delivered %s after recovery) are made only when the process never stalled longer "
-        "than 1.5 s; otherwise the scenario is not judged" % "30 s",
+        "than 1.5 s; otherwise the scenario is not judged" % "20 s",
         "client-side precedence comes from one atomic ticket counter (before the command is written / after its reply is read); "
         "the order of the writes is the order of the SETs in appendonly.aof",
         "a live fence may receive the event of a write that was completed before the fence was requested (processLives "
